@@ -80,7 +80,20 @@ def _extern(name):
     return f
 
 
+def _is_in(interp, args, kwargs):
+    """is_in(x, L): identity membership (the set view of the list), whatever __eq__ the element class defines"""
+    from .core import mem_fn
+    ctx = interp.ctx
+    x, lst = args
+    if isinstance(lst, Cell) and lst.sym is None:
+        ts = [ctx.zbool(ctx.equal(x, e)) for e in lst.conc]
+        return SV(BOOL, z3.Or(*ts)) if ts else False
+    sv = lst.sym if isinstance(lst, Cell) else lst
+    return SV(BOOL, mem_fn(sv.ty)(sv.t, ctx.term(x, sv.ty.args[0])))
+
+
 SPEC_BUILTINS = {
+    "is_in": _is_in,
     "fresh": _fresh, "split_off": _extern("split_off"),
     "all_in": _quant_in(True), "any_in": _quant_in(False),
     "replace_all": _replace_all,
